@@ -614,7 +614,7 @@ func vf34PSKStructure(c *vf34CH, variant int, bl byte) bool {
 
 // vf34MutateCH applies one drawn structural mutation and returns its name.
 func vf34MutateCH(rt *rapid.T, c *vf34CH, l string) string {
-	op := rapid.IntRange(0, 16).Draw(rt, l+"_op")
+	op := rapid.IntRange(0, 18).Draw(rt, l+"_op")
 	for _, e := range c.Exts {
 		if e.Type == 41 && rapid.IntRange(0, 3).Draw(rt, l+"_psk_bias") == 0 {
 			op = 13
@@ -781,6 +781,55 @@ func vf34MutateCH(rt *rapid.T, c *vf34CH, l string) string {
 			}
 		}
 		return "supported-versions-set(none)"
+	case 17, 18:
+		// key_share in place: the groups the hello really shares (so that the server selects one of them), with the
+		// key_exchange of one or more entries cut or grown to lengths around the sizes the server slices at
+		for k := range c.Exts {
+			if c.Exts[k].Type != 51 || len(c.Exts[k].Body) < 2 {
+				continue
+			}
+			type ks struct {
+				g    int
+				data []byte
+			}
+			var shares []ks
+			for p := c.Exts[k].Body[2:]; len(p) >= 4; {
+				g, n := int(p[0])<<8|int(p[1]), int(p[2])<<8|int(p[3])
+				if len(p) < 4+n {
+					break
+				}
+				shares = append(shares, ks{g, append([]byte(nil), p[4:4+n]...)})
+				p = p[4+n:]
+			}
+			if len(shares) == 0 {
+				return "key-share-resize(no-shares)"
+			}
+			changed := false
+			for j := range shares {
+				if vfIsGREASE(uint16(shares[j].g)) || (changed && rapid.Bool().Draw(rt, fmt.Sprintf("%s_ks%d_keep", l, j))) {
+					continue
+				}
+				n0 := len(shares[j].data)
+				sz := rapid.SampledFrom([]int{0, 1, 2, 31, 32, 33, 64, 65, 66, 97, n0 - 33, n0 - 32, n0 - 1, n0 + 1, 1183, 1184, 1185, 1215, 1217, 2000}).Draw(rt, fmt.Sprintf("%s_ks%d_sz", l, j))
+				if sz < 0 {
+					sz = 0
+				}
+				d := shares[j].data
+				for len(d) < sz {
+					d = append(d, byte(len(d)*7+1))
+				}
+				shares[j].data = d[:sz]
+				changed = true
+			}
+			var b []byte
+			for _, x := range shares {
+				b = vf34PutU16(b, x.g)
+				b = append(b, vf34Vec16(x.data)...)
+			}
+			c.Exts[k].Body = vf34Vec16(b)
+			return "key-share-resize"
+		}
+		return "key-share-resize(none)"
 	default:
 		for k := range c.Exts {
 			if c.Exts[k].Type == 51 {
